@@ -195,6 +195,13 @@ class TermEval:
                     return r
                 continue
             if isinstance(st, ast.Assign) and len(st.targets) == 1 and isinstance(st.targets[0], ast.Name):
+                c_ = self.cond(st.value, env, assume) if isinstance(st.value, (ast.Compare, ast.BoolOp, ast.UnaryOp, ast.Call)) else None
+                if c_ is not None:
+                    # a decided condition kept in a flag: other_is_vector = other.ndim == 1
+                    assume = dict(assume)
+                    assume[st.targets[0].id] = c_
+                    assume[f"not {st.targets[0].id}"] = not c_
+                    continue
                 env[st.targets[0].id] = self.ev(st.value, env, assume, fn)
                 continue
             if isinstance(st, (ast.Import, ast.ImportFrom)):
@@ -395,6 +402,49 @@ def read_tables(idx: ProgramIndex, base: ClassInfo):
                 nm = n.func.value.id
                 written += [nm] if nm in tabs else stands_for.get(nm, [])
         deco_tables[name] = written
+    # a shared registrar: a module-level factory whose nested decorator stores into tables it RECEIVES as parameters
+    # (def _make_registrar(torch_function, *tables): ... for table in tables: table[torch_function] = func.__name__),
+    # and thin decorators that return its result for particular tables
+    generic: Dict[str, Tuple[List[str], Optional[str], set]] = {}
+    for name, fn in mod.functions.items():
+        if name in deco_tables or not any(isinstance(x, (ast.FunctionDef, ast.Lambda)) for x in ast.walk(fn.node) if x is not fn.node):
+            continue
+        a_ = fn.node.args
+        pos = [x.arg for x in a_.args]
+        var = a_.vararg.arg if a_.vararg else None
+        params = set(pos) | ({var} if var else set())
+        stands: Dict[str, str] = {}
+        for n in ast.walk(fn.node):
+            if isinstance(n, ast.For) and isinstance(n.target, ast.Name) and isinstance(n.iter, ast.Name) and n.iter.id in params:
+                stands[n.target.id] = n.iter.id
+        pw = set()
+        for n in ast.walk(fn.node):
+            if isinstance(n, ast.Assign):
+                for t in n.targets:
+                    if isinstance(t, ast.Subscript) and isinstance(t.value, ast.Name):
+                        b_ = t.value.id
+                        if b_ in params:
+                            pw.add(b_)
+                        elif b_ in stands:
+                            pw.add(stands[b_])
+        if pw:
+            generic[name] = (pos, var, pw)
+    for name, fn in mod.functions.items():
+        if name in deco_tables or name in generic:
+            continue
+        for n in ast.walk(fn.node):
+            if isinstance(n, ast.Call) and isinstance(n.func, ast.Name) and n.func.id in generic:
+                pos, var, pw = generic[n.func.id]
+                written = []
+                for i, arg in enumerate(n.args):
+                    pn = pos[i] if i < len(pos) else var
+                    if pn in pw and isinstance(arg, ast.Name) and arg.id in tabs:
+                        written.append(arg.id)
+                for k in n.keywords:
+                    if k.arg in pw and isinstance(k.value, ast.Name) and k.value.id in tabs:
+                        written.append(k.value.id)
+                if written:
+                    deco_tables[name] = deco_tables.get(name, []) + written
     if len(deco_tables) < 3:
         raise AnalysisError(f"registration decorators not found (have {sorted(deco_tables)})")
     first: Dict[str, Tuple[str, FunctionInfo]] = {}
@@ -875,7 +925,19 @@ def check_factorwise_maps(idx, rep: Report):
         for mname, fn in c.methods.items():
             if mname not in ELEMENTWISE_UNARY:
                 continue
-            for n in walk_body(fn):
+            # the method body plus the private helper methods it calls on self (self._factor_inverses() ...)
+            nodes, seen_h, todo = [], {fn.qualname}, [fn]
+            while todo:
+                f_cur = todo.pop()
+                for n in walk_body(f_cur):
+                    nodes.append(n)
+                    if isinstance(n, ast.Call) and isinstance(n.func, ast.Attribute) and isinstance(n.func.value, ast.Name) \
+                            and n.func.value.id == "self" and n.func.attr not in ELEMENTWISE_UNARY:
+                        h = idx.resolve_method(c, n.func.attr)
+                        if h is not None and h.qualname not in seen_h and h.name.startswith("_") and len(seen_h) < 6:
+                            seen_h.add(h.qualname)
+                            todo.append(h)
+            for n in nodes:
                 if not isinstance(n, (ast.ListComp, ast.GeneratorExp)):
                     continue
                 g = n.generators[0]
